@@ -296,3 +296,80 @@ Proof.
   induction H as [|i ins Hi _ IH]; simpl; constructor; auto.
   rewrite redirected_input_ok by exact Hi. reflexivity.
 Qed.
+
+(* ---------------------------------------------------------------- unique ids *)
+
+From PC Require Import Model.SchemaSyntax Model.Schema.
+
+Inductive subseq {A} : list A -> list A -> Prop :=
+  | ss_nil : subseq [] []
+  | ss_skip : forall x l1 l2, subseq l1 l2 -> subseq l1 (x :: l2)
+  | ss_take : forall x l1 l2, subseq l1 l2 -> subseq (x :: l1) (x :: l2).
+
+Lemma subseq_refl : forall A (l : list A), subseq l l.
+Proof. induction l; [apply ss_nil | apply ss_take; assumption]. Qed.
+
+Lemma subseq_nil : forall A (l : list A), subseq [] l.
+Proof. induction l; [apply ss_nil | apply ss_skip; assumption]. Qed.
+
+Lemma subseq_app : forall A (a1 a2 b1 b2 : list A), subseq a1 a2 -> subseq b1 b2 -> subseq (a1 ++ b1) (a2 ++ b2).
+Proof.
+  induction 1; simpl; intros; auto.
+  - apply ss_skip. auto.
+  - apply ss_take. auto.
+Qed.
+
+Lemma subseq_existsb : forall A (f : A -> bool) l1 l2, subseq l1 l2 -> existsb f l1 = true -> existsb f l2 = true.
+Proof.
+  induction 1; simpl; intros; auto.
+  - rewrite IHsubseq by assumption. apply orb_true_r.
+  - apply orb_true_iff in H0 as [H0|H0]; [now rewrite H0 | rewrite IHsubseq by assumption; apply orb_true_r].
+Qed.
+
+Lemma subseq_nodup : forall l1 l2, subseq l1 l2 -> nodup_b l2 = true -> nodup_b l1 = true.
+Proof.
+  induction 1; simpl; intros Hn; auto.
+  - apply andb_true_iff in Hn as [_ Hn]. auto.
+  - apply andb_true_iff in Hn as [Hx Hn]. rewrite IHsubseq by assumption.
+    destruct (existsb (aval_eqb x) l1) eqn:E; auto.
+    rewrite (subseq_existsb _ _ _ _ H E) in Hx. discriminate.
+Qed.
+
+Lemma dup_count_nodup : forall l, dup_count l = 0%nat -> nodup_b l = true.
+Proof.
+  induction l as [|v l IH]; simpl; intros H; auto.
+  destruct (existsb (aval_eqb v) l); simpl in *; try discriminate. auto.
+Qed.
+
+Definition id_of (e : xml) (acc : list aval) : list aval :=
+  match xattr a_id e with Some v => v :: acc | None => acc end.
+
+Lemma fold_ids_app : forall l1 l2,
+  fold_right id_of [] (l1 ++ l2) = fold_right id_of [] l1 ++ fold_right id_of [] l2.
+Proof.
+  induction l1 as [|e l1 IH]; simpl; intros; auto. rewrite IH. unfold id_of. destruct (xattr a_id e); reflexivity.
+Qed.
+
+Lemma ids_of_subseq : forall S x, subseq (ids_of S x) (fold_right id_of [] (descendants x)).
+Proof.
+  intros S. apply xml_ind'. intros u n t a tx k IH.
+  cbn [ids_of descendants fold_right].
+  set (gk := (fix go (l : list xml) : list aval := match l with [] => [] | c :: r => ids_of S c ++ go r end) k).
+  set (dk := (fix go (l : list xml) : list xml := match l with [] => [] | c :: r => descendants c ++ go r end) k).
+  assert (Hk : subseq gk (fold_right id_of [] dk)).
+  { subst gk dk. induction IH as [|c r Hc _ IHr]; [apply ss_nil|].
+    rewrite fold_ids_app. apply subseq_app; assumption. }
+  unfold id_of at 1. unfold xattr. cbn [xattrs].
+  destruct (N.eqb n (s_tns S) && existsb (N.eqb t) (s_names S)); destruct (attr a_id a); cbn [app];
+    first [apply ss_take; exact Hk | apply ss_skip; exact Hk | exact Hk].
+Qed.
+
+Theorem distinct_ids_unique : forall S x, book_ok x = true -> ids_unique S x = true.
+Proof.
+  intros S x H. unfold book_ok, book_fails in H. rewrite forallb_app in H.
+  apply andb_true_iff in H as [_ H]. cbn [forallb] in H. rewrite andb_true_r in H.
+  apply Nat.eqb_eq in H.
+  assert (Hd : dup_count (all_ids x) = 0%nat) by (destruct (dup_count (all_ids x)); [reflexivity | discriminate]).
+  unfold ids_unique. eapply subseq_nodup; [apply ids_of_subseq | ].
+  apply dup_count_nodup. exact Hd.
+Qed.
